@@ -28,6 +28,20 @@ namespace verif_drv
         jt_nothrow(mem::joint j, std::size_t n) noexcept : mem::joint_type<jt_nothrow>(j), a(n, *this), b(n, nothrower{}, *this) {}
         jt_nothrow(mem::joint j, const jt_nothrow& o) : mem::joint_type<jt_nothrow>(j), a(o.a, *this), b(o.b, *this) {}
     };
+    struct jt_mixed : mem::joint_type<jt_mixed>
+    {
+        mem::joint_array<mixed_thrower> a, b, c, d, e, f;
+        jt_mixed(mem::joint j, std::size_t n, const mixed_thrower& v, std::initializer_list<mixed_thrower> il, const mixed_thrower* first,
+                 const mixed_thrower* last, jt_mixed& other)
+        : mem::joint_type<jt_mixed>(j), a(n, *this), b(n, v, *this), c(il, *this), d(first, last, *this), e(other.a, *this),
+          f(static_cast<mem::joint_array<mixed_thrower>&&>(other.b), *this)
+        {
+        }
+        jt_mixed(mem::joint j, const jt_mixed& other) : mem::joint_type<jt_mixed>(j), a(other.a, *this), b(other.b, *this), c(other.c, *this),
+                                                        d(other.d, *this), e(other.e, *this), f(other.f, *this)
+        {
+        }
+    };
     struct jt_container : mem::joint_type<jt_container>
     {
         std::vector<int, mem::std_allocator<int, mem::joint_allocator>> v;
@@ -41,6 +55,12 @@ namespace verif_drv
         auto c = mem::clone_joint(p, *a);
         auto d = mem::clone_joint(h, *b);
         auto e = mem::allocate_joint<jt_container>(p, mem::joint_size(64));
+        mixed_thrower mv;
+        jt_mixed*     mo = nullptr;
+        auto          m1 = mem::allocate_joint<jt_mixed>(p, mem::joint_size(100), std::size_t(3), mv, std::initializer_list<mixed_thrower>{}, &mv, &mv, *mo);
+        auto          m2 = mem::clone_joint(p, *m1);
+        auto          u8 = mem::allocate_unique<mixed_thrower[]>(p, std::size_t(3));
+        auto          u9 = mem::allocate_unique<mixed_thrower>(p, mv);
         mem::joint_ptr<jt_throw, pool> moved(static_cast<decltype(a)&&>(a));
         a = static_cast<decltype(a)&&>(moved);
         a.reset();
